@@ -14,27 +14,28 @@ MANIFEST = dict(
          'bytes, arbitrary relative timing and order of the main loop, the consumer and the network, an event handler that may suspend '
          'arbitrarily long), by invariant induction: no identifier is listed twice; the list is exactly the first handled reply per '
          'identifier that the filter admits, with identifier, name and address intact, in handling order; datagrams are handled in '
-         'arrival order, none skipped or repeated; only the requested identifier is listed; the loop returns only for one of its three '
-         'reasons; an iteration at age >= timeout never continues; on return the endpoint is closed, both LOC tasks are gone and nothing '
-         'changes afterwards. In the lockstep tick model (both 0.1 s pollers wake every tick in either order): return by the timeout tick '
-         'for every input, at the tick after a spa is listed when an address/identifier was given, at the first tick after the initial '
-         'wait once any spa is listed. "Every spa reply that is handled gets listed" is proved under the explicit hypothesis that names '
-         'contain no "|" (listed_iff_replied_partial); the full statement is false for the shipped hello parser (D2, witness theorem). '
+         'arrival order, none skipped or repeated; if every datagram is a spa reply (any name bytes, including "|", non-ASCII, empty) the '
+         'consumer never dies and every handled reply is accounted for (listed_iff_replied, full strength since the D2 fix 8ce8f9d); '
+         'only the requested identifier is listed; the loop returns only for one of its three reasons; an iteration at age >= timeout '
+         'never continues; on return the endpoint is closed, both LOC tasks are gone and nothing changes afterwards. In the lockstep '
+         'tick model (both 0.1 s pollers wake every tick in either order): return by the timeout tick for every input, at the tick '
+         'after a spa is listed when an address/identifier was given, at the first tick after the initial wait once any spa is listed. '
          'Tie: trace correspondence with the REAL GeckoAsyncLocator on a virtual-time loop with a fake network of scripted responders '
          '(duplicates, bursts, replies around each deadline +-1 ms and +-1 tick, latin-1 / "|" / empty names, same name, same id from two '
          'addresses, junk and malformed hellos, suspending event handlers, address and identifier filters, callback order shuffled, timer '
          'jitter): the observed order of arrivals, consumer pops, handler returns and main-loop polls is fed to the model driver and the '
          'spas in order, return time, closed endpoint, consumer fate, found flag and queue length are compared; the threaded twin\'s '
          '_on_discovered is compared against its own model function; direct monitors on the real locator.',
-    note='Partial: (1) the timing clauses are theorems about the lockstep tick model; real timer skew is outside (jittered runs are still '
-         'compared exactly because the model accepts any schedule, and the monitors bound the return time by skew). (2) D2: a spa name '
-         'containing "|" kills the hello consumer; listed_iff_replied is proved only for names without "|" and the check reports the '
-         'defect on the unchanged tree. Not covered: the 1 Hz broadcast cadence and real broadcast delivery; cancellation of discover() '
-         'itself (C10); the threaded GeckoLocator beyond its _on_discovered (correspondence only; it lists every spa and uses the filter '
-         'only for the found flag). Noted, outside the quantifier: the consumer handles at most one datagram per 0.1 s, and a datagram that '
-         'is not a hello stays at the head of the queue and blocks every later reply (modelled faithfully, not judged). Trusted: Lean '
-         'kernel; axioms propext/Classical.choice/Quot.sound; harness/gen_c17.py for the two waits; the virtual loop, fake network and '
-         'trace instrumentation (clock reads of async_locator, queue.pop, the event handler).',
+    note='Partial: the timing clauses are theorems about the lockstep tick model; real timer skew is outside (jittered runs are still '
+         'compared exactly because the model accepts any schedule, and the monitors bound the return time by the skew). Hypothesis kept '
+         'visible: spa identifiers contain no "|" and do not start with IOS/AND (true of SPA+MAC identifiers; id_hypothesis_needed shows '
+         'it cannot be dropped). Not covered: the 1 Hz broadcast cadence and real broadcast delivery; cancellation of discover() itself '
+         '(C10); the threaded GeckoLocator beyond its _on_discovered (correspondence only; it lists every spa and uses the filter only for '
+         'the found flag). Noted, outside the quantifier: the consumer handles at most one datagram per 0.1 s (more than about 40 spas '
+         'answering at once are not all listed by the initial wait), and a datagram that is not a hello stays at the head of the queue and '
+         'blocks every later reply (modelled faithfully, not judged). Trusted: Lean kernel; axioms propext/Classical.choice/Quot.sound; '
+         'harness/gen_c17.py for the two waits; the virtual loop, fake network and trace instrumentation (clock reads of async_locator, '
+         'queue.pop, the event handler).',
     technique='Lean 4 invariant induction over input sequences + lockstep schedule lemmas + trace correspondence on a virtual-time loop',
     design='5/C15',
 )
@@ -546,9 +547,9 @@ def run(ctx):
         ctx.obligation_broken("translate:ConfigTables", st["ConfigTables"])
     ctx.lean_obligations("GeckoModel.Properties.C15")
 
-    runs = [("d2", D2_SCRIPT, run_script(D2_SCRIPT))]
+    runs = [("d2-regression", D2_SCRIPT, run_script(D2_SCRIPT))]
     hangs = 0
-    for fam, script in scripts(ctx, 400 if ctx.quick else 6000):
+    for fam, script in scripts(ctx, 400 if ctx.quick else 20000):
         res = run_script(script)
         runs.append((fam, script, res))
         if str(res.get("error", "")).startswith("Hang"):
@@ -579,7 +580,7 @@ def run(ctx):
     ctx.cov["distinct_nontrivial"] = len(nontrivial)
     if st["ConfigTables"] == "ok":
         correspondence(ctx, runs)
-    check_sync(ctx, 200 if ctx.quick else 3000)
+    check_sync(ctx, 200 if ctx.quick else 8000)
     fam, script, res = runs[2]
     ctx.sample({"script": {k: script[k] for k in ("responders", "filter", "suspend_ms", "sched")},
                 "observed": {k: res.get(k) for k in ("spas", "ret_ms", "consumer", "found")}, "log_head": res.get("log", [])[:8]})
